@@ -16,7 +16,7 @@ from harness import tlc, units_data
 from harness.core import Ctx
 
 PID = "C17"
-VALS = [0, 1, -2.5, 1e-3, 12345.678, 1e12]
+VALS = [0, 1, -2.5, 1e-3, 12345.678, 1e12, 1e-15, -3.3e-20, 7e25]
 C17_INVS = ["BaseUnitHasFactorOne", "FactorsAreNumbers", "EveryUnitDescribed", "DisplayIsText", "AliasesShareFactor", "AdvertisedNamesExist"]
 
 
@@ -93,6 +93,8 @@ def numeric(ctx: Ctx):
                 for (u2, f2) in (units if v == vals[0] else units[ui + 1: ui + 3]):
                     try:
                         q2 = q.as_unit(u2)
+                        if isinstance(f2, (int, float)) and not rel_close(q2.displayvalue, q.si / f2, 1e-9):
+                            ctx.violation(f"displayvalue|{key}", f"{c.__name__}({v!r}, {u!r}).as_unit({u2!r}).displayvalue = {q2.displayvalue!r}, si / factor = {q.si / f2!r}", case)
                         if q2.si != q.si or q2.unit != u2 or type(q2) is not c:
                             ctx.violation(f"as_unit|{key}", f"{c.__name__}({v!r}, {u!r}).as_unit({u2!r}): si {q2.si!r} != {q.si!r} or unit {q2.unit!r}", case)
                         # comparisons / arithmetic depend on si only and keep the left unit
